@@ -645,3 +645,14 @@ package index
 //@   ensures rv != nil && fresh(rv)
 //@   ensures [live-is-all-minus-deleted] forall v uint32 :: bmHas[rv][v] == (uint64(v) < segCount(iref(s.segment.Segment)) && !(s.deleted != nil && bmHas[s.deleted][v]))
 //@   ensures [other-bitmaps-untouched] forall b ref, v uint32 :: b != rv ==> bmHas[b][v] == old(bmHas)[b][v]
+
+// ---------------------------------------------------------------------------
+// C14 / C02: a snapshot is reported written only if its bytes left the buffer: the item writer of a
+// snapshot succeeds only after a Flush that succeeded, with nothing written after it
+// ---------------------------------------------------------------------------
+//@ func Snapshot.WriteTo(w, closeCh) (n, err)
+//@   props C14 C02 C12
+//@   requires i != nil
+//@   modifies bwUnflushed
+//@   assume_frame
+//@   ensures [success-only-after-a-successful-flush] err == nil ==> !bwUnflushed
